@@ -49,7 +49,8 @@ Proof. reflexivity. Qed.
 Lemma link_exec_gap c : gap (cfg_of c) = C06_Gen.cacheSafeGapBetweenIndexAndPrimary.
 Proof. reflexivity. Qed.
 
-Lemma link_defaults : C06_Gen.defaultExpire = 7 * 24 * 3600 * sec /\ C06_Gen.defaultNotFoundExpire = 60 * sec /\
+Lemma link_defaults : C06_Gen.defaultExpire = default_expire /\ C06_Gen.defaultNotFoundExpire = default_nfexpire /\
+  C06_Gen.defaultExpire = 7 * 24 * 3600 * sec /\ C06_Gen.defaultNotFoundExpire = 60 * sec /\
   dur_ok C06_Gen.defaultExpire /\ dur_ok C06_Gen.defaultNotFoundExpire.
 Proof. repeat split; try reflexivity; discriminate. Qed.
 
